@@ -1,6 +1,6 @@
 CONSTANTS
   Settings <- ThoroughSettings
-  Family = "ABCD"
+  Family = "ABCDE"
 INIT Init
 NEXT Next
 INVARIANTS
